@@ -70,8 +70,7 @@ void Exec::op_alloc(const Op& op) {
   model_add(s, p, req, ea, eo, home, zeroing, f.c_str()); m.slots[s].tag = m.heaps[home].tag;
   if (ea > 16) flag(F_OVERALIGNED); if (eo != 0) flag(F_OFFSET);
   if (zeroing) { if (was_dirty(p)) flag(F_ZERO_ON_DIRTY); check_zeroed(p, 0, req, f.c_str()); }
-  if (f == "strdup" || f == "strndup") { /* contents checked above */ }
-  model_fill(s);
+  model_fill(s, op.num("nt", 0) != 0);
   verify_neighbours((uintptr_t)p);
 }
 
